@@ -76,7 +76,8 @@ func compSchemas(sp *dialect.Spec) map[string]*dialect.Schema {
 func effectiveParams(sp *dialect.Spec, pi *dialect.PathItem, o *dialect.Op) (q, h, p []dialect.Param) {
 	add := func(l *[]dialect.Param, x dialect.Param) {
 		for i := range *l {
-			if (*l)[i].Name == x.Name {
+			// (header names are case-insensitive)
+			if (*l)[i].Name == x.Name || (x.In == "header" && strings.EqualFold((*l)[i].Name, x.Name)) {
 				(*l)[i] = x
 				return
 			}
@@ -532,6 +533,16 @@ func c04Cases(c runCfg) ([]*scratch.Pkg, []string, map[string]interface{}) {
 					pi.Params = append(pi.Params, p)
 				} else {
 					o.Params = append(o.Params, p)
+					if k%4 == 1 {
+						// a declaration of the same parameter at path-item level, which the operation's own overrides
+						// (another type, the opposite requiredness; for a header also another case)
+						shadow := dialect.Param{Name: name, In: in, Required: !cl.required, Schema: &dialect.Schema{Type: "boolean"}}
+						if in == "header" {
+							shadow.Name = strings.ToLower(name)
+						}
+						pi.Params = append(pi.Params, shadow)
+						dist["shadowed-at-path-level"]++
+					}
 				}
 				ds = append(ds, declared{p, cl})
 				dist[cl.loc]++
